@@ -31,8 +31,13 @@ LATE_RULES = [
     {'lang': 'en', 'patterns': ['dozen'], 'spec': {'name': 'late1', 'kind': 'const', 'value': 12}},
     {'lang': 'en', 'patterns': ['zork {NUMBER:a} {NUMBER:b}', '{NUMBER:a} zork'], 'spec': {'name': 'late2', 'kind': 'encode', 'weights': {'a': 3}}},
     {'lang': 'tr', 'patterns': ['{NUMBER:n} kere'], 'spec': {'name': 'late3', 'kind': 'encode', 'weights': {'n': 7}}},
+    # a rule that declines some of its matches (unknown coin) and accepts others: a declined match must leave no trace in the calculator
+    {'lang': 'en', 'patterns': ['mint {TEXT:coin}', '{NUMBER:n} {TEXT:coin} minted'], 'spec': {'name': 'late4', 'kind': 'encode', 'weights': {'coin': 100},
+                                                                                      'text_codes': {'btc': 1, 'eth': 2}, 'decline_unknown_text': True}},
 ]
-LATE_PROBES = [('en', 'dozen'), ('en', 'dozen * 2'), ('en', '3 dozen'), ('en', 'zork 3 4'), ('en', '5 zork'), ('tr', '5 kere'), ('en', '1 + 1'), ('tr', 'dozen')]
+# the long-lived calculator evaluates the probes in this order, the never-used one in the reverse order
+LATE_PROBES = [('en', 'dozen'), ('en', 'dozen * 2'), ('en', '3 dozen'), ('en', 'zork 3 4'), ('en', '5 zork'), ('tr', '5 kere'), ('en', '1 + 1'), ('tr', 'dozen'),
+               ('en', 'mint doge'), ('en', 'mint btc'), ('en', '3 doge minted'), ('en', '3 eth minted'), ('en', 'mint eth + mint doge')]
 
 
 def binding_text(rng):
@@ -104,6 +109,9 @@ def strip(r):
     return ('other', repr({k: r[k] for k in r if k in ('hang', 'crash', 'driver_error')}))
 
 
+MONEY_NAMES = {}        # names holding money in the history being generated -> currency
+
+
 def program_line(rng, bound, phrases=True):
     r = rng.random()
     if not phrases and r >= 0.92:
@@ -113,8 +121,17 @@ def program_line(rng, bound, phrases=True):
         if bound and rng.random() < 0.5:
             return '%s = %s + %d' % (n, rng.choice(sorted(bound)), rng.randint(1, 99)), n
         return '%s = %d' % (n, rng.randint(1, 9999)), n
-    if r < 0.85:
+    if r < 0.78:
         return '%s * 2 + %d' % (rng.choice(sorted(bound)), rng.randint(0, 9)), None
+    if r < 0.85:
+        # amounts of money held by names (also in currencies without an exchange rate) combined with amounts of the same currency
+        if MONEY_NAMES and rng.random() < 0.65:
+            n = rng.choice(sorted(MONEY_NAMES))
+            return '%s %s %d %s' % (n, rng.choice('+-/'), rng.randint(1, 50), MONEY_NAMES[n]), None
+        cur = rng.choice(['cad', 'usd', 'uah', 'eur', 'pkr'])
+        n = rng.choice(['mny', 'bdg xx', 'kasa'])
+        MONEY_NAMES[n] = cur
+        return '%s = %d %s' % (n, rng.randint(1, 500), cur), None
     if r < 0.92:
         return '', None
     return rng.choice(PHRASES), None
@@ -173,10 +190,16 @@ def run_shard(ctx):
                 ops.append({'op': 'delete_rule', 'c': 0, 'lang': spec['lang'], 'name': spec['spec']['name']})
                 ops.append(dict(spec, op='add_rule', c=0))
             ops += [{'op': 'new_calc', 'c': 2}] + gh.config_ops(cfg, 2, seg=False) + [dict(spec, op='add_rule', c=2) for spec in LATE_RULES]
-            for lang, t in LATE_PROBES:
+            pos0, pos2 = {}, {}
+            for k, (lang, t) in enumerate(LATE_PROBES):
                 ops.append({'op': 'execute', 'c': 0, 'lang': lang, 'text': t})
+                pos0[k] = len(ops) - 1
+            for k in reversed(range(len(LATE_PROBES))):
+                lang, t = LATE_PROBES[k]
                 ops.append({'op': 'execute', 'c': 2, 'lang': lang, 'text': t})
-                late.append((lang, t, len(ops) - 2, len(ops) - 1))
+                pos2[k] = len(ops) - 1
+            for k, (lang, t) in enumerate(LATE_PROBES):
+                late.append((lang, t, pos0[k], pos2[k]))
             for spec in LATE_RULES:
                 ops.append({'op': 'delete_rule', 'c': 0, 'lang': spec['lang'], 'name': spec['spec']['name']})     # the long-lived calculator goes on without them
             rs = drv.run(ops)
@@ -237,6 +260,13 @@ def run_shard(ctx):
         else:
             # ---------------- (b) sessions
             ops = [{'op': 'new_calc', 'c': 3, 'seg': True}] + gh.config_ops(cfg, 3, seg=False)
+            # one history in four uses the sessions with two identically configured calculator objects in turn (a front end that
+            # rebuilds its calculator and keeps the session): the result is determined by configuration, text and date only
+            MONEY_NAMES.clear()
+            two_calcs = rng.random() < 0.25
+            if two_calcs:
+                ops += [{'op': 'new_calc', 'c': 4}] + gh.config_ops(cfg, 4, seg=False)
+                res.count('session_histories_over_two_identical_calculators')
             sessions = {1: {'texts': [], 'bound': set(), 'lang': rng.choice(['en', 'en', 'tr'])}, 2: {'texts': [], 'bound': set(), 'lang': 'en'}}
             # a history that switches the language of a session uses word-independent lines only (bindings and arithmetic are the
             # same in every language, C19), so that one execute of the concatenation under the first language stays the reference
@@ -278,7 +308,7 @@ def run_shard(ctx):
                 st['last'] = text
                 st['texts'].append(text)
                 ops.append({'op': 'session_set_text', 's': sid, 'text': text})
-                ops.append({'op': 'execute_session', 'c': 3, 's': sid})
+                ops.append({'op': 'execute_session', 'c': (rng.choice([3, 4]) if two_calcs else 3), 's': sid})
                 i_sess = len(ops) - 1
                 concat = '\n'.join(st['texts'])
                 ops.append({'op': 'execute', 'c': 3, 'lang': st['ref_lang'], 'text': concat})
